@@ -6,6 +6,7 @@ CONSTANTS
   Kinds = {"keep"}
   SigTwice = FALSE
   Dev = {"BoundedQueueCap"}
+  Faults = {}
 SPECIFICATION Spec
 PROPERTIES Live_RunReturns
 CHECK_DEADLOCK FALSE
